@@ -35,7 +35,11 @@ def replay(spec):
         pd["s1"] = sp["s1"]
         if "proportional" in ptype:
             pd["d"] = sp["d"]
-    M = Model(species=SPECIES, reactions=[(sp["reactants"], sp["products"], ptype, pd)], parameters=params,
+    rx = (sp["reactants"], sp["products"], ptype, pd)
+    if sp.get("delay"):
+        fam, dre, dpr = sp["delay"]
+        rx = rx + (fam, list(dre), list(dpr), {"fixed": {"delay": 0.5}, "gaussian": {"mean": 2.0, "std": 0.25}, "gamma": {"k": 3.0, "theta": 0.5}}[fam])
+    M = Model(species=SPECIES, reactions=[rx], parameters=params,
               initial_condition_dict={"A": 3, "B": 4, "C": 0})
     import libsbml
     if spec.get("via") == "file":
@@ -68,15 +72,21 @@ def replay(spec):
     env.update(state)
     for p in sm.getListOfParameters():
         env[p.getId()] = p.getValue()
-    try:
-        got = evaluate(law, env)
-    except UndefinedIdentifier as e:
-        return {"reproduced": True, "observed": "kinetic law '%s' refers to undefined identifier %s" % (text, e), "expected": "defined identifiers"}
-    sv = np.array([state[s] for s in M.get_species_list()], dtype=float)
     pv = np.array(M.get_parameter_values(), dtype=float)
     prop = M.get_propensities()[0]
-    want = prop.py_get_stochastic_propensity(sv, pv, 0.0) if stochastic else prop.py_get_propensity(sv, pv, 0.0)
-    bad = not (abs(got - want) <= 1e-9 * max(1.0, abs(want)))
+    bad = False
+    # the counterexample's state first, then a few ordinary states (the rate constant is small: compare relatively)
+    for state in [state, dict(zip(SPECIES, (3.0, 4.0, 1.0))), dict(zip(SPECIES, (1.0, 1.0, 0.0))), dict(zip(SPECIES, (7.0, 2.0, 5.0)))]:
+        env.update(state)
+        try:
+            got = evaluate(law, env)
+        except UndefinedIdentifier as e:
+            return {"reproduced": True, "observed": "kinetic law '%s' refers to undefined identifier %s" % (text, e), "expected": "defined identifiers"}
+        sv = np.array([state[s] for s in M.get_species_list()], dtype=float)
+        want = prop.py_get_stochastic_propensity(sv, pv, 0.0) if stochastic else prop.py_get_propensity(sv, pv, 0.0)
+        bad = not (abs(got - want) <= 1e-9 * max(abs(got), abs(want)) + 1e-300)
+        if bad:
+            break
     r = sm.getReaction(0)
     st_ok = {x.getSpecies(): x.getStoichiometry() for x in r.getListOfReactants()} == {s: sp["reactants"].count(s) for s in set(sp["reactants"])} \
         and {x.getSpecies(): x.getStoichiometry() for x in r.getListOfProducts()} == {s: sp["products"].count(s) for s in set(sp["products"])}
